@@ -44,6 +44,10 @@ func (u *Unit) evalCall(call *ast.CallExpr, st *State) []Val {
 	if !u.inSpec {
 		st.markReached(call)
 	}
+	if c, ok := u.forbidSites[call]; ok && !u.inSpec {
+		f := strings.Fields(c.Text)
+		u.oblige(st, "forbid#"+u.site(call, "call#"+f[0]), "assert", "false", u.clauseProps(c), c, "no call of "+f[0]+" is executed here: "+strings.Join(f[1:], " "), call)
+	}
 	if cs, ok := u.atAsserts[call]; ok && !u.inSpec {
 		// the call's arguments are visible to the assertion as arg0, arg1, ...
 		argBind := map[string]Val{}
@@ -572,6 +576,13 @@ func (u *Unit) inlineBody(body *ast.BlockStmt, ft *ast.FuncType, sig *types.Sign
 
 // evalCurried handles builder.ToAssignable(a)(f(...)) by inlining the returned closure.
 func (u *Unit) evalCurried(inner, outer *ast.CallExpr, st *State) []Val {
+	if !u.inSpec {
+		st.markReached(inner)
+		if c, ok := u.forbidSites[inner]; ok {
+			f := strings.Fields(c.Text)
+			u.oblige(st, "forbid#"+u.site(inner, "call#"+f[0]), "assert", "false", u.clauseProps(c), c, "no call of "+f[0]+" is executed here: "+strings.Join(f[1:], " "), inner)
+		}
+	}
 	f := u.staticCallee(inner)
 	fi := u.prog.funcOf(f)
 	if fi == nil {
